@@ -86,6 +86,8 @@ pub fn all() -> Vec<Scenario> {
     c17i::register(&mut v);
     c17i::register_c13(&mut v);
     c17i::register_c02(&mut v);
+    c17i::register_c11(&mut v);
+    c17i::register_c16(&mut v);
     c19u::register(&mut v);
     c19::register(&mut v);
     c20u::register(&mut v);
